@@ -496,6 +496,7 @@ func fieldLeavesOfLocal(al *ssa.Alloc, k int, t types.Type, depth int) []ssa.Val
 	}
 	var out []ssa.Value
 	n := 0
+	whole := false
 	for _, u := range *al.Referrers() {
 		switch y := u.(type) {
 		case *ssa.FieldAddr:
@@ -511,14 +512,19 @@ func fieldLeavesOfLocal(al *ssa.Alloc, k int, t types.Type, depth int) []ssa.Val
 		case *ssa.Store:
 			if y.Addr == ssa.Value(al) { // the struct assigned whole
 				n++
-				out = append(out, fieldLeavesOfValue(y.Val, k, t, al.Parent(), depth+1)...)
+				whole = true
+				sub := fieldLeavesOfValue(y.Val, k, t, al.Parent(), depth+1)
+				if len(sub) == 0 {
+					return nil // what the field holds is not known (a parameter, a value from elsewhere)
+				}
+				out = append(out, sub...)
 			}
 		}
 	}
 	if n == 0 {
 		return nil
 	}
-	if zeroPossible(al, k) {
+	if !whole && zeroPossible(al, k) {
 		out = append(out, zeroOf(t, al.Parent()))
 	}
 	return out
